@@ -85,6 +85,10 @@ def isOk {α} : Outcome α → Bool
   | ok _ => true
   | _ => false
 
+def isValueError {α} : Outcome α → Bool
+  | valueError => true
+  | _ => false
+
 def isInternal {α} : Outcome α → Bool
   | internal => true
   | _ => false
@@ -209,19 +213,25 @@ def pyFloat : PyVal → Outcome XF
   | .enum _ => typeError
   | .obj => typeError
 
-/-- `jnp.isnan(v)` for a Python scalar `v` that is a float or an int: an int is parsed as int64
-    (x64 mode) and raises OverflowError outside [-2^63, 2^63). -/
+/-- `validation._isnan_scalar(v)` for a Python scalar `v` that is a float or an int: `jnp.isnan` parses an
+    int as int64 (x64 mode) and raises OverflowError outside [-2^63, 2^63), which is caught and re-raised
+    as ValueError.  (Never called on anything else: the last line is unreachable.) -/
 def isnanScalar : PyVal → Outcome Bool
   | .bool _ => ok false
-  | .int i => if -(2 ^ 63 : Int) ≤ i ∧ i < (2 ^ 63 : Int) then ok false else internal
+  | .int i => if -(2 ^ 63 : Int) ≤ i ∧ i < (2 ^ 63 : Int) then ok false else valueError
   | .float x => ok x.isNan
   | _ => internal
 
-/-- `try: float(v)  except TypeError: raise ValueError(...)` — a ValueError raised by `float` itself
-    (non-numeric string) and an OverflowError propagate unchanged. -/
+/-- `try: float(v)  except (TypeError, OverflowError): raise ValueError(...)` — a ValueError raised by
+    `float` itself (non-numeric string) propagates as the ValueError it is. -/
 def floatCatch (v : PyVal) : Outcome XF :=
   match pyFloat v with
-  | typeError => valueError
+  | ok x => ok x
+  | _ => valueError
+
+/-- `try: asarray(v, dtype=float)  except OverflowError: raise ValueError(...)` -/
+def catchOverflow {α : Type} : Outcome α → Outcome α
+  | internal => valueError
   | o => o
 
 /-! ### scalar validators -/
@@ -236,13 +246,14 @@ def validateFloatOrInt (v : PyVal) (optional : Bool) : Outcome PyVal :=
     else
       (floatCatch v).bind fun x => if x.isNan then valueError else ok (.float x)
 
-/-- `validate_positive_float(value, name, optional)` -/
-def validatePositiveFloat (v : PyVal) (optional : Bool) : Outcome PyVal :=
+/-- `validate_positive_float(value, name, optional, allow_inf)` -/
+def validatePositiveFloat (v : PyVal) (optional : Bool) (allowInf : Bool := false) : Outcome PyVal :=
   match v, optional with
   | .none, true => ok .none
   | _, _ =>
     (floatCatch v).bind fun x =>
-      if x.le0 then valueError else if x.isNan then valueError else ok (.float x)
+      if x.le0 then valueError else if x.isNan then valueError
+      else if x.isInf && !allowInf then valueError else ok (.float x)
 
 /-- `squeeze` of a one-element jax array (numpy arrays are not instances of `jax.numpy.ndarray`). -/
 def squeezeJax1 : PyVal → PyVal
@@ -342,13 +353,14 @@ def validateFloatOrIterable (v : PyVal) (optional positive : Bool) : Outcome PyV
   | .none, true => ok .none
   | _, _ =>
     if v.isFloatOrInt then
-      (pyFloat v).bind fun x => if positive && x.lt0 then valueError else ok (.float x)
+      (catchOverflow (pyFloat v)).bind fun x => if positive && x.lt0 then valueError else ok (.float x)
     else
       match v with
       | .str _ _ => typeError
       | _ =>
         if v.isIterable then
-          (toArr v).bind fun a => if positive && a.2.any XF.lt0 then valueError else ok (arrVal a)
+          (catchOverflow (toArr v)).bind fun a =>
+            if positive && a.2.any XF.lt0 then valueError else ok (arrVal a)
         else typeError
 
 /-- `validate_array(iterable, name, optional, ndim)`; `ndim = none` means no dimension check. -/
@@ -359,7 +371,7 @@ def validateArray (v : PyVal) (optional : Bool) (ndim : Option (List Nat)) : Out
     let conv : Outcome Arr :=
       match v with
       | .sparse r c data => ok ([r, c], data)     -- `.todense()`
-      | _ => if v.isIterable then toArr v else typeError
+      | _ => if v.isIterable then catchOverflow (toArr v) else typeError
     conv.bind fun a =>
       match ndim with
       | Option.none => ok (arrVal a)
@@ -367,7 +379,7 @@ def validateArray (v : PyVal) (optional : Bool) (ndim : Option (List Nat)) : Out
 
 /-- `validate_1d(x)` -/
 def validate1d (v : PyVal) : Outcome PyVal :=
-  (toArr v).bind fun a =>
+  (catchOverflow (toArr v)).bind fun a =>
     match a.1 with
     | [] => ok (.arr .jax [1] a.2)
     | [_] => ok (arrVal a)
@@ -430,7 +442,7 @@ def gpFromString (v : PyVal) : Outcome PyVal :=
       match gpTypeNames.find? (fun g => isInfixChars t.toList g.toList) with
       | some g => ok (.enum g)
       | Option.none => valueError
-  | _ => internal          -- `s.lower()` → AttributeError
+  | _ => valueError        -- neither None, nor a member, nor a str
 
 /-! ### `BaseEstimator.__init__` / `DensityEstimator.__init__` argument validation -/
 
@@ -478,20 +490,20 @@ def ctorNN (v : PyVal) : Outcome PyVal :=
 def densityCtor (a : CtorArgs) : Outcome CtorArgs := do
   let nLandmarks ← validatePositiveInt a.nLandmarks true
   let rank ← validateFloatOrInt a.rank true
-  let jitter ← validatePositiveFloat a.jitter false
+  let jitter ← validatePositiveFloat a.jitter false false
   let landmarks ← validateArray a.landmarks true Option.none
   let gpType ← gpFromString a.gpType
   let nnDistances ← ctorNN a.nnDistances
   let mu ← validateFloat a.mu true
-  let ls ← validatePositiveFloat a.ls true
-  let lsFactor ← validatePositiveFloat a.lsFactor false
+  let ls ← validatePositiveFloat a.ls true false
+  let lsFactor ← validatePositiveFloat a.lsFactor false false
   let lp ← validateArray a.lp true Option.none
   let l ← validateArray a.l true Option.none
   let d ← validateFloatOrIterable a.d true true
   let initialValue ← validateArray a.initialValue true Option.none
   let optimizer ← validateString a.optimizer optimizerChoices
   let nIter ← validatePositiveInt a.nIter false
-  let initLearnRate ← validatePositiveFloat a.initLearnRate false
+  let initLearnRate ← validatePositiveFloat a.initLearnRate false false
   let pwu ← validateBool a.predictorWithUncertainty false
   let jit ← validateBool a.jit false
   let checkRank ← validateBool a.checkRank true
